@@ -87,7 +87,7 @@ def generate(run_seed, tier):
             "fs": {"seed": rf.getrandbits(30), "resolution": rf.choice([1, 1, 60, 3600]), "skew_at": rf.choice([None, None, 3, 7]), "skew_by": rf.choice([0, 5, 100]),
                    "permute": rf.random() < 0.8},
             "cache_cap": rf.choice([1, 2, 10]),
-            "overwrite_guard": rw.choice([None, "same", "slash", "noslash_url"]),
+            "overwrite_guard": rw.choice([None, "same", "slash", "noslash_url", "subpath_file"]),
             "rewrite": rw.random() < 0.5,
             "write_fault": ({"at": rf.randint(0, files), "kind": rf.choice(["enospc", "torn"])} if rf.random() < 0.35 else None),
             "read_fault": ({"at": rf.randint(0, 8)} if rf.random() < 0.2 else None)}
@@ -300,14 +300,43 @@ def _execute(spec, ses):
             return _done(_v("pushdown_differs", "%s:%s:%s" % (kind, rd["obs"], why.split(" ")[0]),
                             "pushed-down %s of read %s differs from the in-memory twin: %s" % (rd["obs"], {k: v for k, v in rd.items() if k in ("columns", "pred", "partitions")}, why),
                             read=ri), ses, counters, spec, faults)
+    # ---- history independence of the parquet caches: clear them, re-open every read, same divisions / npartitions
+    import dask_expr.io.parquet as pqm
+
+    seen = []
+    for rd in spec["reads"]:
+        try:
+            r = _open_reader(rd, rd["reader"])
+            seen.append((rd, canon_div(r), r.npartitions))
+        except Exception:
+            seen.append(None)
+    pqm._cached_plan.clear()
+    pqm._STATS_CACHE.clear()
+    gc.collect()
+    for rd_seen in seen:
+        if rd_seen is None:
+            continue
+        rd, div0, np0 = rd_seen
+        try:
+            r = _open_reader(rd, rd["reader"])
+            div1, np1 = canon_div(r), r.npartitions
+        except Exception:
+            continue
+        counters["cache_cleared_reopens"] = counters.get("cache_cleared_reopens", 0) + 1
+        if (div0, np0) != (div1, np1):
+            return _done(_v("depends_on_read_history", "%s:%s" % (rd["reader"], "divisions" if div0 != div1 else "npartitions"),
+                            "read %s reported divisions %s / %d partitions after the other reads of this session, but %s / %d with empty parquet caches"
+                            % ({k: v for k, v in rd.items() if k in ("reader", "calculate_divisions")}, div0, np0, div1, np1)), ses, counters, spec, faults)
     # ---- (c) overwrite guard
     og = spec.get("overwrite_guard")
     if og:
         counters["guard_checks"] += 1
-        target = {"same": URL, "slash": URL + "/", "noslash_url": "simfs:///bucket/ds"}[og]
+        target = {"same": URL, "slash": URL + "/", "noslash_url": "simfs:///bucket/ds", "subpath_file": URL}[og]
         snap = fs.snapshot()
         try:
-            r = dx.read_parquet(URL)
+            # "subpath_file": the query reads one file inside the directory that is being overwritten
+            read_from = URL if og != "subpath_file" else sorted(p_ for p_ in fs.find("/bucket/ds") if p_.endswith(".parquet"))[0].replace("/bucket", "simfs://bucket", 1)
+            r = dx.read_parquet(read_from)
             q = r[r[sorted(spec["table"]["cols"])[0]].notnull()]
             with ses.scheduler(refw, monitor=False, admission_check=False) as sch:
                 q.to_parquet(target, overwrite=True, compute_kwargs={"scheduler": sch.get})
@@ -394,6 +423,13 @@ def _execute(spec, ses):
         except Exception:
             simfs.SimFS.fail_read_at = None
     return _done({"verdict": "ok", "nontrivial": nontrivial}, ses, counters, spec, faults)
+
+
+def canon_div(r):
+    try:
+        return [_canon_scalar(x) for x in r.divisions]
+    except Exception as e:
+        return "error:" + type(e).__name__
 
 
 def _roundtrip_comparable(written, w):
